@@ -660,6 +660,12 @@ func (m *Mirror) handleFuturePrevoteProofs(
 	// including public keys.
 	pubKeys := vlReq.VRV.ValidatorSet.PubKeys
 
+	if len(pubKeys) > 0 && p.PubKeyHash != string(vlReq.VRV.ValidatorSet.PubKeyHash) {
+		// The kernel told us the validator set for this height,
+		// and the message claims to be signed by a different one.
+		return tmconsensus.HandleVoteProofsBadPubKeyHash
+	}
+
 	if len(pubKeys) == 0 {
 		// The mirror didn't have the public keys loaded in memory,
 		// so read them from storage.
@@ -1021,6 +1027,12 @@ func (m *Mirror) handleFuturePrecommitProofs(
 	// Sometimes the kernel is able to assign the validator set,
 	// including public keys.
 	pubKeys := vlReq.VRV.ValidatorSet.PubKeys
+
+	if len(pubKeys) > 0 && p.PubKeyHash != string(vlReq.VRV.ValidatorSet.PubKeyHash) {
+		// The kernel told us the validator set for this height,
+		// and the message claims to be signed by a different one.
+		return tmconsensus.HandleVoteProofsBadPubKeyHash
+	}
 
 	if len(pubKeys) == 0 {
 		// The mirror didn't have the public keys loaded in memory,
